@@ -186,3 +186,138 @@ def model_chan(ctx, cfg_text, name, timeout=1500):
     if res.timeout:
         raise Inconclusive("TLC timeout on Chan/%s" % name)
     return res
+
+
+# ---------------------------------------------------------------------------------------------------------
+# manager family: Mgr / MgrTab / MgrSeq / MgrJudge + harness mgrx
+# ---------------------------------------------------------------------------------------------------------
+MGR_STATUSES = ["Requested", "Queued", "Ongoing", "AwaitingAcceptance", "TransferFinished", "ResponderCompleted", "ResponderFinalizing",
+                "ResponderFinalizingTransferFinished", "Finalizing", "Completing", "Cancelling", "Failing", "Completed", "Failed", "Cancelled"]
+
+
+def mgr_tab(ctx, family, roles=ALL_ROLES, statuses=MGR_STATUSES):
+    cfg = write_cfg(ctx, "mgrtab-%s.cfg" % family,
+                    "CONSTANTS\n OutFile = \"cases.ndjson\"\n Family = \"%s\"\n Roles = %s\n Statuses = %s\n" % (family, tla_set(roles), tla_set(statuses)))
+    res = ctx.tlc("MgrTabOut", cfg, workers=1, timeout=600, heap="8g")
+    vlib.tlc_must_pass(res, "MgrTab tabulation")
+    return os.path.join(res.dir, "cases.ndjson")
+
+
+def mgr_model(ctx, role, max_steps, invariants):
+    cfg = write_cfg(ctx, "mgrseq-mc-%s.cfg" % role,
+                    "SPECIFICATION Spec\nCONSTANTS\n OutFile = \"unused.ndjson\"\n Family = \"all\"\n Roles = {\"initPush\"}\n Statuses = {\"Requested\"}\n"
+                    " Role = \"%s\"\n MaxSteps = %d\n DumpLen = 0\nINVARIANTS %s\nVIEW View\n" % (role, max_steps, " ".join(invariants)))
+    res = ctx.tlc("MgrSeq", cfg, timeout=1500, heap="12g")
+    if res.violated:
+        raise Inconclusive("MgrSeq model violates %s (model-level counterexample is not a verdict; compare model and code)\n%s" % (res.violated, res.out[-1500:]))
+    vlib.tlc_must_pass(res, "MgrSeq model check (%s)" % role)
+    ctx.add_model(res)
+    return res
+
+
+def mgr_sim(ctx, n_per, length, roles=ALL_ROLES):
+    cases = []
+    for k, role in enumerate(roles):
+        cfg = write_cfg(ctx, "mgrseq-sim-%s.cfg" % role,
+                        "SPECIFICATION Spec\nCONSTANTS\n OutFile = \"unused.ndjson\"\n Family = \"all\"\n Roles = {\"initPush\"}\n Statuses = {\"Requested\"}\n"
+                        " Role = \"%s\"\n MaxSteps = %d\n DumpLen = %d\n" % (role, length, length))
+        res = ctx.tlc("MgrSeq", cfg, workers=1, simulate="num=%d" % n_per, depth=length + 2, seed=ctx.seed * 104729 + k, timeout=600, heap="6g")
+        if res.timeout or "Error:" in res.out:
+            raise Inconclusive("MgrSeq simulation failed:\n" + res.out[-2000:])
+        got = parse_cases(res.out)
+        for i, c in enumerate(got):
+            c["case"] = "msim-%s-%d" % (role, i)
+            cases.append(c)
+        ctx.transitions += sum(len(c["steps"]) for c in got)
+        ctx.states += sum(len(c["steps"]) for c in got)
+    return cases
+
+
+def run_mgr_scripts(ctx, cases_path):
+    b = ctx.go_bin("mgrx")
+    out = ctx.path("mobs-%d.ndjson" % len(ctx.stages))
+    ctx.must_run_go(b, "TestScripts", env={"VERIF_CASES": cases_path, "VERIF_OUT": out}, timeout=1200)
+    if not os.path.exists(out) or os.path.getsize(out) == 0:
+        raise Inconclusive("mgrx produced no observations")
+    return out
+
+
+def sample_lines(ctx, path, n):
+    lines = open(path).read().splitlines()
+    if n and len(lines) > n:
+        ctx.rng.shuffle(lines)
+        lines = lines[:n]
+    p = path + ".sample"
+    open(p, "w").write("\n".join(lines) + "\n")
+    return p, len(lines)
+
+
+def classify_mgr(ctx, verdicts, prefixes, obs_idx, tag):
+    for v in verdicts:
+        rule = v["rule"]
+        case = obs_idx.get(v["case"], {})
+        step = None
+        if case:
+            st = [s for s in case["steps"] if s.get("i") == v["i"]]
+            step = st[0] if st else None
+        if rule == "harness":
+            raise Inconclusive("harness error in case %s step %s: %s" % (v["case"], v["i"], step.get("err") if step else "?"))
+        if rule == "conf":
+            ctx.drift.append({"case": v["case"], "i": v["i"], "status": v["status"], "op": v["op"], "mkind": v["mkind"], "note": "observation differs from Mgr!Handle"})
+            continue
+        if not any(rule.startswith(p) for p in prefixes):
+            continue
+        key = {"rule": rule, "status": v["status"], "op": v["op"], "mkind": v["mkind"]}
+        ctx.violation(key, "%s: %s violated at status=%s stimulus=%s/%s (case %s step %s)" % (tag, rule, v["status"], v["op"], v["mkind"], v["case"], v["i"]),
+                      detail={"verdict": v, "step": step})
+
+
+def mgr_family(ctx, prefixes, families, nontrivial, quick_n=3000, model_roles=("respPush",), invariants=(), sim_quick=(8, 8), sim_thorough=(150, 12), sim_roles_quick=("respPull", "initPush"), model=True, sims=True):
+    # 1. design level
+    for role in ((model_roles if ctx.quick() else ALL_ROLES) if model else ()):
+        mgr_model(ctx, role, 2 if ctx.quick() else 3, invariants)
+    # 2. tabulated cases on the real manager
+    total = 0
+    for fam in families:
+        cases = mgr_tab(ctx, fam)
+        if ctx.quick():
+            cases, n = sample_lines(ctx, cases, quick_n)
+        obs = run_mgr_scripts(ctx, cases)
+        n, verdicts = judge(ctx, obs, module="MgrJudge")
+        idx = index_obs(obs)
+        classify_mgr(ctx, verdicts, prefixes, idx, "case[%s]" % fam)
+        total += n
+        for c in idx.values():
+            for s in c["steps"]:
+                ctx.evaluations += 1
+                if nontrivial(s):
+                    ctx.distinct.add((s["t"]["pre"]["status"] if s["t"]["hasPre"] else "none", s["stim"]["kind"], s["stim"]["msg"]["kind"], s["ret"], s["stim"]["from"],
+                                      len(s["net"]), len(s["tr"])))
+        for c in list(idx.values())[:2]:
+            s = c["steps"][0]
+            ctx.sample({"kind": "mgr-case", "family": fam, "pre": s["t"]["pre"]["status"] if s["t"]["hasPre"] else None, "stim": s["stim"]["kind"], "msg": s["stim"]["msg"]["kind"],
+                        "from": s["stim"]["from"], "val": s["stim"]["val"], "ret": s["ret"], "post": s["t"]["post"]["status"] if s["t"]["hasPost"] else None,
+                        "net": [(x["what"], x["to"], x["msg"]["kind"]) for x in s["net"]], "tr": [x["call"] for x in s["tr"]]})
+    ctx.states += total
+    ctx.transitions += total
+    ctx.extra["mgr_cases"] = total
+    # 3. simulated stimulus histories
+    npr, ln = sim_quick if ctx.quick() else sim_thorough
+    sims = mgr_sim(ctx, npr, ln, roles=sim_roles_quick if ctx.quick() else ALL_ROLES) if (sims or not ctx.quick()) else []
+    if sims:
+        cp = ctx.path("msim.ndjson")
+        vlib.write_ndjson(cp, sims)
+        obs = run_mgr_scripts(ctx, cp)
+        n, verdicts = judge(ctx, obs, module="MgrJudge")
+        idx = index_obs(obs)
+        classify_mgr(ctx, verdicts, prefixes, idx, "history")
+        ctx.traces += n
+        ctx.extra["mgr_histories"] = n
+        for c in idx.values():
+            for s in c["steps"]:
+                ctx.evaluations += 1
+                if nontrivial(s):
+                    ctx.distinct.add((s["t"]["pre"]["status"] if s["t"]["hasPre"] else "none", s["stim"]["kind"], s["stim"]["msg"]["kind"], s["ret"], s["stim"]["from"],
+                                      len(s["net"]), len(s["tr"])))
+        for c in list(idx.values())[:1]:
+            ctx.sample({"kind": "mgr-history", "case": c["case"], "steps": [(s["stim"]["kind"], s["stim"]["msg"]["kind"], s["ret"], s["t"]["post"]["status"]) for s in c["steps"]]})
